@@ -184,6 +184,14 @@ def run_config(cfg, budget=600, jobs=None, only=None, use_cache=True):
     out = {'cfg': cfg, 'roots': recs, 'wall': round(time.time() - t0, 1), 'n_roots': len(roots)}
     if only is None:
         json.dump(out, open(cache, 'w'))
+        # results of older versions of the analyser for this tree and configuration are dead weight
+        d = os.path.dirname(cache)
+        for f in os.listdir(d):
+            if f.startswith(f'e2-{cfg}-') and f.endswith('.json') and os.path.join(d, f) != cache:
+                try:
+                    os.remove(os.path.join(d, f))
+                except OSError:
+                    pass
     return out
 
 
